@@ -481,6 +481,12 @@ class Tee(Generic[T]):
     async def aclose(self) -> None:
         for child in self._children:
             await child.aclose()
+        # children that were never advanced cannot clean up: their buffers remain
+        # and nobody closed the iterator as the "last peer"
+        if self._buffers:
+            self._buffers.clear()
+            if isinstance(self._iterator, ACloseable):
+                await self._iterator.aclose()
 
 
 tee = Tee
